@@ -173,6 +173,7 @@ def run_sim_property(pid, tier, seed):
             p.wait(timeout=max(1, deadline - time.time()))
         except subprocess.TimeoutExpired:
             p.kill(); inconclusive += 1
+    nondeterministic = []
     merged = dict(evaluations=0, foreign=0, budget=0, excluded=0, suppressed=0)
     totals = {}
     hists = {}
@@ -207,11 +208,15 @@ def run_sim_property(pid, tier, seed):
             if f.get('deterministic', 0) < 3:
                 # a replay that does not reproduce is a harness problem, not a violation (DESIGN 3.7)
                 hists.setdefault('nondeterministic_failures', {})[f['sig']] = 1
+                nondeterministic.append((sid, f['sig']))
                 continue
             violations.append(dict(sig=f['sig'], msg=f['msg'], tape=bytes.fromhex(f['tape_hex']), dump=f['dump'], source=f'shard {sid} ({fl})', family=(FAM[fam] if fam else None), trace=f.get('trace_hex', '')))
     for sig, n in hists.get('suppressed_by_known_finding', {}).items():
         known_seen[sig] = known_seen.get(sig, 0) + n
 
+    if nondeterministic:
+        print(f'check.py: shard(s) reported a failure that did not replay 3/3 ({nondeterministic[:3]}): harness nondeterminism, the check is broken (exit 2)')
+        return 2
     if inconclusive > 0 or merged['evaluations'] == 0:
         # never pass silently: a shard that crashed, timed out or could not start is a broken check, not a held property
         for (sid, fl, fam, cmd, out, hs) in jobs:
